@@ -3,6 +3,8 @@ package url
 import (
 	"net/url"
 	"strings"
+	"unicode/utf16"
+	"unicode/utf8"
 )
 
 type searchParam struct {
@@ -37,7 +39,33 @@ func (s searchParams) Swap(i, j int) {
 }
 
 func (s searchParams) Less(i, j int) bool {
-	return strings.Compare(s[i].name, s[j].name) < 0
+	return compareCodeUnits(s[i].name, s[j].name) < 0
+}
+
+// compareCodeUnits orders two strings by their UTF-16 code units, the order in which URLSearchParams.sort() compares
+// names. It is the byte order of the (UTF-8) strings except between a supplementary character, which is a pair of
+// surrogates (D800..DFFF) in UTF-16, and the characters U+E000..U+FFFF, whose UTF-8 bytes are smaller.
+func compareCodeUnits(a, b string) int {
+	for a != "" && b != "" {
+		ra, na := utf8.DecodeRuneInString(a)
+		rb, nb := utf8.DecodeRuneInString(b)
+		if ra != rb {
+			ua1, ua2 := ra, rune(0)
+			if ra >= 0x10000 {
+				ua1, ua2 = utf16.EncodeRune(ra)
+			}
+			ub1, ub2 := rb, rune(0)
+			if rb >= 0x10000 {
+				ub1, ub2 = utf16.EncodeRune(rb)
+			}
+			if ua1 != ub1 {
+				return int(ua1 - ub1)
+			}
+			return int(ua2 - ub2)
+		}
+		a, b = a[na:], b[nb:]
+	}
+	return len(a) - len(b)
 }
 
 func (s searchParams) Encode() string {
